@@ -2,6 +2,7 @@ package main
 
 import (
 	"fmt"
+	"go/types"
 	"sort"
 	"strings"
 
@@ -68,6 +69,9 @@ func (c *Ctx) extensionMethods() []*ssa.Function {
 		switch fn.Name() {
 		case "UpdateTrip", "UpdateVehicle", "UpdateAlert", "GetTrack":
 			pk := fnPkgPath(fn)
+			if _, isPtr := fn.Signature.Recv().Type().(*types.Pointer); isPtr {
+				continue // pointer-receiver wrappers of value methods: the extension values are structs
+			}
 			if strings.HasPrefix(pk, modPath+"/extensions") {
 				out = append(out, fn)
 			}
